@@ -2,6 +2,7 @@
    (non-vacuity of the C09 theorems) and the witnesses showing that the handler before the fix
    commits answered non-acceptable requests with 500. *)
 From SL Require Import Base.BytesProofs Submit.Model Submit.Spec Submit.Proofs.
+From SL Require Import Submit.IssuerModel Submit.IssuerProofs.   (* so that the closure of Properties/C09.v checks them *)
 From Coq Require Import ZifyN ZifyNat ZifyBool.
 Open Scope N_scope.
 Open Scope byte_scope.
